@@ -84,7 +84,7 @@ let cerr = function Code.CEMalformed -> "malformed" | Code.CEFailed -> "failed"
 let sec = z_of_string "1000000000"
 let zmul a b = BinInt.Z.mul a b
 
-let code (w : string list) (aux : string list) : string =
+let code_with step (w : string list) (aux : string list) : string =
   match w with
   | _ :: code_len :: expire_in :: max_retries :: ops ->
     let cfg = { Code.cc_max_retries = z_of_string max_retries;
@@ -99,7 +99,7 @@ let code (w : string list) (aux : string list) : string =
         | "A" :: _ | "S" :: _ -> Code.CAuth (bytes_of_hex (req aux ("s" ^ string_of_int i))), "A"
         | ["ADV"; d] -> Code.CAdv (zmul (z_of_string d) sec), "ADV"
         | _ -> failwith "bad-op" in
-      let (st', r) = Code.cstep cfg !st mop in
+      let (st', r) = step cfg !st mop in
       st := st';
       match r with
       | Code.CGenOk c -> "G:ok:" ^ code_len ^ ":1:1"
@@ -112,6 +112,9 @@ let code (w : string list) (aux : string list) : string =
     let rows = List.sort compare rows in
     "C " ^ String.concat " " out ^ " st:" ^ (if rows = [] then "-" else String.concat ";" rows)
   | _ -> "?"
+
+(* the code as it is, then the code with the proposed expiry repair *)
+let code w aux = code_with Code.cstep w aux ^ " ;; " ^ code_with Code.cstep_fixed w aux
 
 (* ---------------- login / password ---------------- *)
 let berr = function Basic.BEMalformed -> "malformed" | Basic.BEPolicy -> "policy" | Basic.BEDuplicate -> "duplicate"
